@@ -23,7 +23,7 @@ LEVELS = {
     "C11": "proof",
 }
 
-MIN_COUNTS = {"modules": 86, "functions": 1500, "classes": 170}
+MIN_COUNTS = {"modules": 85, "functions": 1500, "classes": 170}  # 85 tracked modules (+ generated version.py)
 
 
 def main(argv=None):
